@@ -400,5 +400,6 @@ func TestVerif_C37(t *testing.T) {
 				"the 19-character tail of the previous identity's hashed name, used as a profile name of its own"},
 			"oracle": "four distinct names, each <= 28 characters, each starting with cali-pri-"})
 		fmt.Printf("enum C37 identities=%d naming-calls=%d\n", r.idents, r.evals)
+		c37Concurrency(c)
 	})
 }
